@@ -44,6 +44,10 @@ def make_config(rng: random.Random):
                blocksize=rng.choice([None, None, 16, 64, 100, 256, 512, 48]), ovr_blocksize=rng.choice([None, None, 16, 64]), overviews=ovr, windowed=rng.random() < 0.25,
                intermediate=rng.choice([False, False, True, "zstd", {"compress": "lzw"}]), dest=rng.choice(["file", "file", "mem"]), existing=rng.choice([None, None, "no-overwrite", "overwrite"]),
                api=rng.choice(["write_cog", "write_cog", "layers"]), data_seed=rng.randint(0, 10**6))
+    if isinstance(ovr, list):
+        # GDAL refuses level lists that collapse the image to 1x1 more than once: keep levels that leave >= 2 px on the longer side
+        ovr = [L for L in ovr if max(ny, nx) / L >= 2]
+        cfg["overviews"] = ovr
     if cfg["api"] == "layers" and ovr not in ("external",):
         cfg["overviews"] = "external" if min(ny, nx) >= 4 else "none-single-layer"
     if cfg["dest"] == "mem":
@@ -230,7 +234,8 @@ def run_config(mon: Monitor, cfg, workdir: str) -> None:
                     oe = ov.values
                     oe = oe[None] if layout == "YX" else (oe if layout == "SYX" else oe.transpose(2, 0, 1))
                     okv = okv and ob.shape == oe.shape and np.array_equal(ob, oe)
-                mon.check(okv, "structure.external-overviews", wit, key="external-overview-pixels", cls=cls)
+                cube_layer = layout == "SYX" and any(ov.shape[0] == ov.shape[1] == ov.shape[2] for ov in ext)
+                mon.check(okv, "structure.external-overviews", wit, key="band-first-cube-ambiguous" if cube_layer else "external-overview-pixels", cls=cls)
         finally:
             if memfile is not None:
                 memfile.close()
